@@ -16,17 +16,24 @@ from .. import wire as W
 
 ID = "C04"
 CLAIM = dict(
-    text="Kernel-checked framing theorems for every frame list and every cut position: frame splitting inverts framing; "
-         "reading a stream cut at byte k yields exactly the frames that end at or before k and leaves a proper prefix of "
-         "the next frame; a cut inside the 4-byte length is a clean end; plus msgpack M1 so that every complete frame "
-         "decodes to its value. Tie: length format / header length / short-length-is-EOF regenerated from stream.py; the "
-         "model reader is compared with RecordStreamReader on EVERY cut of every generated stream; real-code oracle: "
-         "records yielded = written records whose frames are complete, then clean end exactly at frame boundaries "
-         "(or inside a length prefix), else an error; gzip cuts and failing/short writes give an intact prefix.",
-    note="partial: that a truncated *msgpack document* is rejected by msgpack's C unpacker is exercised on every cut, and "
-         "modelled (decode = incomplete), the general prefix lemma M5 is not yet proved; zlib's behaviour on truncated "
-         "input is the hypothesis CodecLaws.truncation (exercised over every cut of the compressed file).",
-    technique="Lean 4 induction over frame lists (every cut position) + exhaustive-cut model/implementation correspondence",
+    text="Kernel-checked: C04_records_prefix - for EVERY admissible history of records written by a fresh writer (any "
+         "number of records, any descriptors, nesting to any depth) and EVERY cut position k, the reader run over the "
+         "first k bytes yields exactly the first n records written, unaltered and in order, where n is precisely the "
+         "number of records whose frames lie completely within k bytes (no complete record skipped, none invented, "
+         "none partly filled), and then stops with EOF (frame boundary / inside a 4-byte length), 'incomplete input' "
+         "(inside a frame body; msgpack prefix lemma M5: no proper prefix of an encoding decodes) or 'not a record "
+         "stream' (inside the header frame); at or past the end everything is yielded and the end is clean. Also the "
+         "frame-level theorems (splitting inverts framing for every frame list and cut) and M1. Tie: length format / "
+         "header length / short-length-is-EOF regenerated from stream.py; the model reader is compared with "
+         "RecordStreamReader on EVERY cut of every generated stream; real-code oracle: records yielded = written "
+         "records whose frames are complete, then clean end exactly at frame boundaries (or inside a length prefix), "
+         "else an error; gzip cuts and failing/short writes give an intact prefix.",
+    note="partial: that msgpack's C unpacker rejects a truncated document the way the model's decoder does (M5 is proved "
+         "for the model) is exercised on every cut; zlib's behaviour on truncated input is the hypothesis "
+         "CodecLaws.truncation (exercised over every cut of the compressed file); grouped records are covered by the "
+         "correspondence, not by the theorem (PVOK excludes them).",
+    technique="Lean 4 induction over write histories and frame lists (every cut position) + msgpack prefix lemma + "
+              "exhaustive-cut model/implementation correspondence",
     design="8/C04")
 RULE = ("one case = one generated stream (3-10 records incl. nested/grouped, 200-3000 bytes); within it every cut 0..len "
         "(exhaustive per stream) through RecordStreamReader on BytesIO, a sample of cuts through RecordReader(path), "
@@ -54,6 +61,14 @@ def gen_cases(rng, tier):
         ["rec", ds, [V.B(b"y"), V.S("RECORDSTREAM\n"), V.I(3)], g],
         ["rec", ds, [V.B(b"RECORDSTREAM\n"), V.S("zzRECORDSTREAM\nzz"), V.I(4)], g],
         ["rec", ds, [V.B(b"z"), V.S("end"), V.I(5)], g]]})
+    # an evolved record type: the same name with the fields in another order / of other types, interleaved
+    e1 = ["t/evolved", [["string", "hostname"], ["string", "username"], ["varint", "n"]]]
+    e2 = ["t/evolved", [["string", "username"], ["string", "hostname"], ["varint", "n"]]]
+    e3 = ["t/evolved", [["varint", "n"], ["string", "hostname"]]]
+    ev = lambda d, a, b, k: ["rec", d, [V.S(a), V.S(b), V.I(k)] if len(d[1]) == 3 else [V.I(k), V.S(a)], g]  # noqa: E731
+    cases.append({"kind": "cuts", "gz": False, "faults": True, "records": [
+        ev(e1, "db-1", "alice", 1), ev(e1, "db-2", "bob", 2), ev(e2, "carol", "web-1", 3), ev(e2, "dave", "web-2", 4),
+        ev(e1, "db-3", "erin", 5), ev(e3, "mail", "", 6), ev(e2, "frank", "web-3", 7)]})
     for i in range(n):
         ndesc = r.randint(1, 3)
         types = [t for t in V.SERIALISABLE if t not in ("net.ipaddress", "net.IPAddress")]  # C01's known finding
@@ -101,7 +116,7 @@ def _read_all(fp_factory):
 class FailingFile(io.BytesIO):
     """fails (mode 'fail') or writes only half of the data and then fails (mode 'short') at the i-th write call"""
 
-    def __init__(self, at, mode):
+    def __init__(self, at, mode, once=True):      # the fault hits exactly one call; later calls succeed
         super().__init__()
         self.at, self.mode, self.calls = at, mode, 0
 
@@ -213,6 +228,26 @@ def run_real(case):
                                         f"are recoverable from the truncated file ({len(plain)} plaintext bytes)")
                     if k == len(gzdata) and (len(got) != len(full_obs) or end != "eof"):
                         problems.append(f"complete gzip file: {len(got)} of {len(full_obs)} records, {end}")
+                    # the same truncated file through a FILE OBJECT under a neutral name (compression sniffed from
+                    # the leading bytes, as for stdin): the same records must come out
+                    p2 = os.path.join(d, "cut.bin")
+                    open(p2, "wb").write(gzdata[:k])
+                    got2 = []
+                    fh = open(p2, "rb")
+                    try:
+                        for rec in RecordReader(fileobj=fh):
+                            got2.append(rec)
+                    except Exception:
+                        pass
+                    finally:
+                        fh.close()
+                    ncuts += 1
+                    g2 = [V.observe(r) for r in got2]
+                    if g2 != full_obs[:len(g2)]:
+                        problems.append(f"gzip cut {k} via file object: a yielded record differs from the written ones")
+                    elif len(got2) != n_rec:
+                        problems.append(f"gzip cut {k} via file object: {len(got2)} records yielded, but {n_rec} complete "
+                                        f"record frames are recoverable from the truncated file")
         finally:
             shutil.rmtree(d, ignore_errors=True)
         nfaults = 0
@@ -240,6 +275,32 @@ def run_real(case):
                         problems.append(f"write fault {mode}@{at}: a yielded record differs from the record written")
                     if len(got) != done:
                         problems.append(f"write fault {mode}@{at}: {done} write() calls returned, {len(got)} records read")
+            # a producer that CARRIES ON after one failed write call (ENOSPC on one call, nothing of it written): the
+            # file has a hole - a whole frame, or the body after its length prefix, is missing. Whatever the reader
+            # yields must still be records that were written, unmodified and in order (then it ends or raises).
+            for at in range(1, total_calls + 1):
+                f = FailingFile(at, "fail", once=True)
+                w2 = RecordStreamWriter(f)
+                okidx = []
+                for i, r in enumerate(recs):
+                    try:
+                        w2.write(r)
+                        okidx.append(i)
+                    except OSError:
+                        pass
+                w2.fp = None
+                got, end = _read_all(lambda: io.BytesIO(f.getvalue()))
+                nfaults += 1
+                gobs = [V.observe(r) for r in got]
+                j = 0
+                for g in gobs:
+                    while j < len(okidx) and full_obs[okidx[j]] != g:
+                        j += 1
+                    if j == len(okidx):
+                        problems.append(f"write fault fail@{at}, producer carried on: the reader yields a record that "
+                                        f"was not written (or an altered one): {str(g)[:160]}")
+                        break
+                    j += 1
         return {"len": len(data), "stream": data.hex(), "hashes": hashes, "per_cut": per_cut, "ncuts": ncuts,
                 "nfaults": nfaults, "n_records": len(recs), "n_frames": len(frames), "full_end": end_full,
                 "problems": problems[:5], "n_problems": len(problems)}
